@@ -445,7 +445,19 @@ def r7(ctx, r):
     r.expect(okl, e_, None, "error arm loops", "an error result of receiveSync can lead back to another receive without the exchange being complete: a failing peer is polled again instead of the attempt failing", okdesc="every error arm throws or completes")
 
 
+def anchors(ctx, r):
+    tab = [(fn(ctx, HC, "performRequest", HCF), ["attempt", "retries", "method"]), (fn(ctx, HC, "executeRequest", HCF), ["reusable", "forceEvict", "framing", "recvResult", "complete", "lease", "sendResult"]),
+           (fn(ctx, HC, "frameResponse", HCF), ["forceEvict", "data"]), (fn(ctx, HC, "isIdempotentMethod", HCF), ["method"])]
+    for f, names in tab:
+        common.require_names(f, names)
+        r.instance()
+        r.ok("%s: %s" % (last(f.name), ", ".join(names)))
+
+
 def run(ctx, ck):
+    r0 = ck.run_rule("C17-R0", "the local names the rules are anchored on exist (a rename makes the analysis refuse — exit 2 — instead of raising a false alarm)", "anchor table", lambda r: anchors(ctx, r))
+    if r0.broken:
+        return
     ck.run_rule("C17-R1", "the retry decision is a pure function of (method, exception just caught); framing errors never retried", "A5 predicate abstraction + reaching-definition locality", lambda r: r1(ctx, r))
     ck.run_rule("C17-R2", "idempotent method set ⊆ RFC 9110 §9.2.2, exact comparison", "A10 table", lambda r: r2(ctx, r))
     ck.run_rule("C17-R3", "'not sent' is claimed only where no send can have executed", "A2 reachability + A3 call graph", lambda r: r3(ctx, r))
